@@ -52,15 +52,15 @@ mut("and-drops-right-when-both-have-alternatives", ["C01", "C10", "C06"],
 			tmp := make([]*node, 0, len(l)+len(r))"""))
 
 # ---- C02 -----------------------------------------------------------------------------------------
-mut("comparegt-ge", ["C02", "C11"],
-    "compareGT uses >= so that identifierInRange is unaffected, but a bug in rangesEqual path: compareEQ accepts adjacent steps",
+mut("compareeq-adjacent-steps", ["C02"],
+    "compareEQ treats adjacent version steps of the later families as equal (no-plus vs no-plus)",
     (CMP, "	return firstRange.location[versionGroup] == secondRange.location[versionGroup]",
      "	d := firstRange.location[versionGroup] - secondRange.location[versionGroup]\n	return d == 0 || (d == 1 && firstRange.location[licenseGroup] > 30)"))
 
 mut("exception-gate-dropped-for-plus", ["C02"],
-    "exceptionsAreCompatible ignores a one-sided exception when the other side has '+'",
+    "exceptionsAreCompatible ignores a one-sided exception when one side has '+' and the license is outside the range table (MIT+ WITH e vs MIT)",
     (NODE, """	if firstNode.hasException() != secondNode.hasException() {""",
-     """	if firstNode.hasException() != secondNode.hasException() && (firstNode.hasPlus() || secondNode.hasPlus()) {
+     """	if firstNode.hasException() != secondNode.hasException() && (firstNode.hasPlus() || secondNode.hasPlus()) && getLicenseRange(*firstNode.license()) == nil {
 		return true
 	}
 	if firstNode.hasException() != secondNode.hasException() {"""))
@@ -174,9 +174,9 @@ mut("extract-dedup-by-license-id", ["C06"],
 		licenses = append(licenses, *licenseNode.reconstructedLicenseString())
 	}"""))
 
-mut("extract-lowercases-refs", ["C06"],
-    "LicenseRef names are lower-cased in the reconstructed string",
-    (NODE, """		license := "LicenseRef-" + *n.licenseRef()""", """		license := "LicenseRef-" + strings.ToLower(*n.licenseRef())"""))
+mut("extract-lowercases-docref-initial", ["C06"],
+    "the first letter of a DocumentRef name is lower-cased in the reconstructed string",
+    (NODE, """			license = "DocumentRef-" + *n.documentRef() + ":" + license""", """			license = "DocumentRef-" + strings.ToLower((*n.documentRef())[:1]) + (*n.documentRef())[1:] + ":" + license"""))
 
 # ---- C08 -----------------------------------------------------------------------------------------
 mut("only-not-stripped-before-with", ["C08"],
@@ -186,7 +186,7 @@ mut("only-not-stripped-before-with", ["C08"],
      """	if strings.HasSuffix(license, "-only") && !strings.HasPrefix(strings.TrimLeft(exp.expression[exp.index:], " "), "WITH") {
 		adjustedLicense := license[0 : lenLicense-5]"""))
 
-mut("or-later-suffix-no-plus", ["C08", "C02"],
+mut("or-later-suffix-no-plus", ["C02", "C11"],
     "a listed X-or-later id no longer implies hasPlus when an exception follows",
     (PARSE, """	if strings.HasSuffix(token.value, "-or-later") {
 		lic.hasPlus = true
@@ -197,13 +197,16 @@ mut("or-later-suffix-no-plus", ["C08", "C02"],
 
 # ---- C09 -----------------------------------------------------------------------------------------
 mut("exception-lookup-case-sensitive", ["C09"],
-    "exception ids are looked up case-sensitively",
+    "exception ids are matched case-insensitively only in their first 24 bytes",
     (LIC, """func exceptionLicense(id string) (bool, string) {
 	return inLicenseList(spdxlicenses.GetExceptions(), id)
 }""",
      """func exceptionLicense(id string) (bool, string) {
 	for _, e := range spdxlicenses.GetExceptions() {
-		if e == id {
+		if len(e) == len(id) && len(e) > 24 && strings.EqualFold(e[:24], id[:24]) && e[24:] == id[24:] {
+			return true, e
+		}
+		if len(e) <= 24 && strings.EqualFold(e, id) {
 			return true, e
 		}
 	}
@@ -275,7 +278,7 @@ mut("table-entry-moved-to-other-family", ["C11"],
 # ---- C12 -----------------------------------------------------------------------------------------
 mut("hand-edit-generated-list", ["C12"],
     "a hand edit of get_licenses.go drops one id",
-    ("spdxexp/spdxlicenses/get_licenses.go", """		"Zlib",\n""", ""))
+    ("spdxexp/spdxlicenses/get_licenses.go", """		"Zed",\n""", ""))
 
 mut("generator-misfiles-deprecated", ["C12"],
     "the generator treats ids ending in '+' as active (and the generated files are regenerated consistently)",
@@ -409,7 +412,7 @@ mut("quartic-dedup", ["C14"],
 		}
 	}
 	licenses = removeDuplicateStrings(licenses)
-"""), tier="thorough")
+"""))
 
 # ---- C15 -----------------------------------------------------------------------------------------
 mut("offset-off-by-one", ["C15"],
